@@ -62,8 +62,8 @@ type world struct {
 	cancel      context.CancelFunc
 	dead        context.Context // already cancelled
 	cleanup     []func()
-	obj         any        // component specific state
-	local       [8]any     // per driver thread scratch (never shared)
+	obj         any            // component specific state
+	local       [8]any         // per driver thread scratch (never shared)
 	bg          sync.WaitGroup // harness goroutines started for the round (drainers)
 }
 
